@@ -30,8 +30,8 @@ STUBS = [
 FLOAT_MODE = "R-mode exact reals (+ one QF_FP query)"
 BOUNDS = {"quick": dict(durations=[1, 2, 3, 4, 5, 6], slice_args="all integers (symbolic)", phase_samples="2..4"),
           "thorough": dict(durations=list(range(1, 10)), slice_args="all integers (symbolic)", phase_samples="2..6")}
-OUTSIDE = ["InterpolatedWaveform / KaiserWaveform sample values (scipy, Bessel)", "KaiserWaveform.from_max_val", "BlackmanWaveform.from_max_val "
-           "outside window lengths 10..150 ns", "hash"]
+OUTSIDE = ["InterpolatedWaveform sample values (scipy)", "KaiserWaveform.from_max_val short-window branch (guess < 11) and beta != 14",
+           "from_max_val outside the stated window lengths", "hash"]
 
 
 def setup():
@@ -286,6 +286,34 @@ def h_blackman_max(shape):
     return h
 
 
+def h_kaiser_max(shape):
+    """KaiserWaveform.from_max_val, long-window branch (duration guess >= 11): never exceeds max_val, integrates to the
+    area, one nanosecond shorter would exceed max_val."""
+    from pulser.waveforms import KaiserWaveform
+
+    max_val, beta = shape["max_val"], shape.get("beta", 14.0)
+
+    def h(inp):
+        area = inp.real("area", shape["lo"], shape["hi"])
+        wf = KaiserWaveform.from_max_val(max_val, area, beta)
+        s = samples_of(wf)
+        D = len(s)
+        obs = [("k3:kaiser_n_samples", wf.duration == D)]
+        peak = smax(list(s))
+        obs.append(("k3:kaiser_never_exceeds_max_val", peak <= max_val + 1e-9))
+        tot = s[0]
+        for x in s[1:]:
+            tot = tot + x
+        obs.append(("k3:kaiser_area_preserved", abs(tot * 1e-3 - area) <= 1e-9))
+        if D >= 12:
+            w = np.kaiser(D - 1, beta)
+            shorter_peak = area * 1e3 / float(np.sum(w)) * float(np.max(w))
+            obs.append(("k3:kaiser_one_ns_shorter_would_exceed", shorter_peak > max_val - 1e-9))
+        return obs
+
+    return h
+
+
 def h_phase_fp(shape):
     """phase = x % 2*pi lies in [0, 2*pi) for every binary64 x in (-2*pi, 0).
     Symbolic side: QF_FP model of Python's float modulo on that interval;
@@ -338,6 +366,13 @@ def kernels(tier):
     for i in range(n_slices):
         for neg in ((False,) if (quick and i % 2) else (False, True)):
             ks.append(("blackman_max", dict(max_val=max_val, lo=lo0 + i * step, hi=lo0 + (i + 1) * step, neg=neg)))
+    # Kaiser, long-window branch: duration guess 12..40 (quick) / 12..100 (thorough); area slices as for Blackman
+    kmax, kbeta = 20.0, 14.0
+    ratio = kmax * float(np.sum(np.kaiser(100, kbeta))) / 100
+    a_lo = 12.5 * ratio / 1000.0
+    kstep = 3.0 * ratio / 1000.0
+    for i in range(9 if quick else 29):
+        ks.append(("kaiser_max", dict(max_val=kmax, beta=kbeta, lo=a_lo + i * kstep, hi=a_lo + (i + 1) * kstep)))
     return ks
 
 
@@ -352,4 +387,6 @@ def harness(kernel, shape):
         return h_phase_fp(shape)
     if kernel == "blackman_max":
         return h_blackman_max(shape)
+    if kernel == "kaiser_max":
+        return h_kaiser_max(shape)
     raise ValueError(kernel)
